@@ -1,0 +1,19 @@
+//go:build verif
+
+package tbtc
+
+import "context"
+
+// Verification hook (build tag verif): re-exports existing identifiers only.
+
+const VerifCoordinationFrequencyBlocks = coordinationFrequencyBlocks
+
+func VerifWatchCoordinationWindows(
+	ctx context.Context,
+	watchBlocksFn func(ctx context.Context) <-chan uint64,
+	onWindowFn func(coordinationBlock uint64, index uint64),
+) {
+	watchCoordinationWindows(ctx, watchBlocksFn, func(w *coordinationWindow) {
+		onWindowFn(w.coordinationBlock, w.index())
+	})
+}
